@@ -476,6 +476,46 @@ def rule_R_DEEP(ctx, repo):
                             found[('iter', loop)] = True
     if qual is None:
         raise AnalysisError('anchor vanished: deep_round_factory.deep_round')
+    # ... and on every path: an element that passed the container guard is rebuilt from its recursively rounded elements (only an empty one may be skipped)
+    skipped = None
+    npaths = 0
+    for fi, node, env, eng, is_main in closures:
+        if fi.name != 'deep_round_factory' or not is_main:
+            continue
+        st = St(env=dict(env), frames=(node.name,))
+        eng._bind_params_symbolic(node, st, None)
+        for o in eng.exec_block(node.body, st):
+            if o.kind != RETURN:
+                continue
+            npaths += 1
+            truth = o.st.facts.get('truth', {})
+            stores = [e.args[2] for e in o.st.events if e.kind == 'SETITEM' and e.depth == 0
+                      and contains_term(e.args[2], lambda t: t[0] == 'call' and t[1][0] == 'opaque' and t[1][1] == node.name)]
+            for t, b in truth.items():
+                if not b or t[0] != 'call' or not t[2]:
+                    continue
+                isd = t[1] == ('lib', 'isinstance') and len(t[2]) == 2 and 'dict' in class_names(t[2][1])
+                isi = t[1][0] == 'lib' and libname(t[1]) == 'isiterable'
+                if not (isd or isi):
+                    continue
+                x = t[2][0]
+                if isi and any(tt[0] == 'call' and tt[1] == ('lib', 'isinstance') and bb and tt[2] and tt[2][0] == x for tt, bb in truth.items()):
+                    continue      # an earlier isinstance branch (float, str, dict) took this element
+                if any(contains_term(v, lambda u: u == x) for v in stores):
+                    continue
+                if truth.get(x) is False:
+                    continue      # an empty container: nothing to round
+                extra = [render(tt)[:40] + ('' if bb else ' is false') for tt, bb in truth.items()
+                         if tt is not t and contains_term(tt, lambda u: u == x) and not (tt[0] == 'call' and tt[1] == ('lib', 'isinstance'))
+                         and not (tt[0] == 'call' and tt[1][0] == 'lib' and libname(tt[1]) == 'isiterable')]
+                if skipped is None:
+                    skipped = (o, 'dict' if isd else 'iterable', extra)
+    ctx.ob('R-DEEP', 'every container element is rebuilt from its rounded elements on every path (%d paths)' % npaths, skipped is None)
+    if skipped is not None:
+        o, kind, extra = skipped
+        ctx.fail('R-DEEP', qual, 'recursion into a %s skipped when %s' % (kind, '; '.join(extra) or 'a further condition holds'),
+                 'deep_round leaves a %s argument as it is on a path where %s: the floats inside it (at any depth below) keep their digits, so two calls that agree '
+                 'after rounding get different keys' % (kind, '; '.join(extra) or 'a further condition holds'), '%s:%d' % (m.rel, o.line or 1), render_path(o))
     for (kind, loop), ok in sorted(found.items()):
         ctx.ob('R-DEEP', 'deep_round %s in %s' % (kind, loop), ok)
         if not ok:
